@@ -6,6 +6,7 @@ import (
 )
 
 var vHarnesses = map[string]func(p []int){
+	"H_C17": func(p []int) { H_C17(p[0], p[1], p[2], p[3], p[4], p[5], p[6], p[7], p[8]) },
 	"H_C15_b2bit":          func(p []int) { H_C15_b2bit() },
 	"H_C15_b2bitarr":       func(p []int) { H_C15_b2bitarr(p[0]) },
 	"H_C15_bytes_vs_bits":  func(p []int) { H_C15_bytes_vs_bits(p[0]) },
